@@ -136,33 +136,6 @@ def trace (files : List FileEnt) (limit : Int) (sc : Scenario) : List FrameOut :
 
 /-! ## deviation regions: decidable predicates over a request (used by the driver and as theorem hypotheses) -/
 
-/-- prefix in which counting `\n` only gives the §7.3 position: no <CR> except in <CR><LF>, no <LS>/<PS> -/
-def clean : Src → Bool
-  | [] => true
-  | b :: r =>
-    if b = 13 then (match r with
-      | b2 :: _ => if b2 = 10 then clean r else false
-      | [] => false)
-    else if isLSPS b r then false
-    else clean r
-
-/-- the prefix before byte offset `off` is `clean` (vacuous for offsets that denote nothing) -/
-def cleanAt (src : Src) (off : Int) : Bool :=
-  if 0 ≤ off ∧ off < src.length then clean (src.take off.toNat) else true
-
-def hasEval (ps : List Pre) : Bool := ps.any (fun p => match p with | .directEval .. => true | _ => false)
-
-/- does an argument list contain a direct eval (at any depth)? -/
-mutual
-def argHasEval : Arg → Bool
-  | .lit => false
-  | .call _ _ as => argsHasEval as
-  | .evalDirect .. => true
-def argsHasEval : Args → Bool
-  | .nil => false
-  | .cons a r => argHasEval a || argsHasEval r
-end
-
 /-- is the innermost activation a native one? -/
 def innermostNative (ls : List Level) : Bool :=
   match ls.getLast? with
@@ -173,9 +146,8 @@ def innermostNative (ls : List Level) : Bool :=
 def devUnrecorded (sc : Scenario) : Bool := sc.levels.any (fun lv => lv.via != .implicit && lv.form == .other)
 /-- an activation entered without any call expression (getter, toString, valueOf) -/
 def devImplicit (sc : Scenario) : Bool := sc.levels.any (fun lv => lv.via == .implicit)
-/-- a direct eval completed earlier in some active activation -/
-def devEvalFile (sc : Scenario) : Bool :=
-  sc.levels.any (fun lv => hasEval lv.pre || argsHasEval lv.args || lv.via == .evalDirect) || hasEval sc.pre
+/-- some active activation is direct eval code: it runs in its caller's scope and gets no frame of its own -/
+def devDirectEvalFrame (sc : Scenario) : Bool := sc.levels.any (fun lv => lv.via == .evalDirect)
 /-- the error is raised in script code without a usable `at` -/
 def devErrPos (sc : Scenario) : Bool :=
   match sc.raise with
@@ -183,19 +155,11 @@ def devErrPos (sc : Scenario) : Bool :=
   | .nonFn .other _ => true
   | .siteBare .other _ => true
   | _ => innermostNative sc.levels
-/-- some reported position lies after a lone <CR>, an <LS> or a <PS> -/
-def devPositionCR (files : List FileEnt) (sc : Scenario) : Bool :=
-  (acts "" false 0 sc.levels (raiseOff sc.raise)).any (fun a => !a.native &&
-    match files[a.file]? with
-    | some fe => !cleanAt fe.src (a.cur - 1)
-    | none => false)
-
-def traceDevs (files : List FileEnt) (sc : Scenario) : List String :=
+def traceDevs (sc : Scenario) : List String :=
   (if devUnrecorded sc then ["trace_unrecorded_callee"] else []) ++
   (if devImplicit sc then ["trace_implicit_call"] else []) ++
-  (if devEvalFile sc then ["trace_eval_file"] else []) ++
-  (if devErrPos sc then ["errpos_no_at"] else []) ++
-  (if devPositionCR files sc then ["position_cr"] else [])
+  (if devDirectEvalFrame sc then ["trace_direct_eval_frame"] else []) ++
+  (if devErrPos sc then ["errpos_no_at"] else [])
 
 /-- the name/message of an error object were changed after it was created -/
 def staleText : Thrown → Bool
